@@ -271,6 +271,9 @@ func runProperty(def *PropDef, c *Check) {
 	c.ruleFailedResultsUnused("E6", fns, acceptedFailedResultUses)
 	c.ruleCommaOkDiscipline("E7", fns)
 	c.ruleRemovalBehindMatch("E8", fns)
+	c.ruleParamsStayUsed("E9", fns, paramBaseline())
+	c.ruleFoundIndexSentinel("E10", fns)
+	c.ruleSearchCoversWholeList("E11", fns)
 }
 
 // acceptedErrorIdioms: sites of the confirmed tree where a failed call is deliberately answered with a
@@ -974,4 +977,103 @@ func acceptedIdiom(P *Program, table map[string]string, base string) (string, bo
 		}
 	}
 	return "", false
+}
+
+// ---------------------------------------------------------------------------------------------
+// parameters stay used
+
+// paramUnused: the parameter has no use in the function body.
+func paramUnused(p *ssa.Parameter) bool {
+	refs := p.Referrers()
+	if refs == nil {
+		return true
+	}
+	for _, r := range *refs {
+		if _, dbg := r.(*ssa.DebugRef); !dbg {
+			return false
+		}
+	}
+	return true
+}
+
+func isContextType(t types.Type) bool { return t.String() == "context.Context" }
+
+// ruleParamsStayUsed (E9): a parameter that the function used on the confirmed tree is still used: when the
+// one place that read `hash` reads `lastHash` instead, the code compiles (parameters may be unused)
+// and what the caller handed over is silently ignored. Parameters unused on the confirmed tree are
+// recorded (checker/baseline_params.txt, by position); context parameters are not judged (dropping a
+// log line leaves one unused).
+func (c *Check) ruleParamsStayUsed(rule string, fns []*ssa.Function, unused map[string]bool) {
+	n := 0
+	for _, fn := range fns {
+		if fn == nil || fn.Blocks == nil || fn.Parent() != nil {
+			continue
+		}
+		key := c.P.Key(fn)
+		if key == "" || !baselineHasFunc(key) {
+			continue
+		}
+		for i, p := range fn.Params {
+			if p.Name() == "_" || p.Name() == "" || isContextType(p.Type()) {
+				continue
+			}
+			n++
+			if paramUnused(p) && !unused[fmt.Sprintf("%s\t%d", key, i)] {
+				c.Bad(rule, fmt.Sprintf("%s#parameter-%d-used", key, i), fn.Pos(), "use of parameters", nil,
+					"the parameter %q of %s is no longer used in the function: what the caller hands over is ignored (another value of the same type is used in its place)", p.Name(), key)
+				c.Touch(fn)
+			}
+		}
+	}
+	c.Ok(rule, "scope#parameters", token.NoPos, "use of parameters", "%d parameters examined", n)
+}
+
+var paramBaselineCache map[string]bool
+var paramBaselineFuncs map[string]bool
+
+func loadParamBaseline() {
+	if paramBaselineCache != nil {
+		return
+	}
+	paramBaselineCache = map[string]bool{}
+	paramBaselineFuncs = map[string]bool{}
+	data, err := os.ReadFile(filepath.Join(verifDirGlobal, "checker", "baseline_params.txt"))
+	if err != nil {
+		return
+	}
+	for _, l := range strings.Split(string(data), "\n") {
+		if strings.HasPrefix(l, "#") || strings.TrimSpace(l) == "" {
+			continue
+		}
+		f := strings.Split(l, "\t")
+		if len(f) == 2 && f[1] == "*" {
+			paramBaselineFuncs[f[0]] = true
+		} else if len(f) == 2 {
+			paramBaselineCache[l] = true
+		}
+	}
+}
+
+func paramBaseline() map[string]bool { loadParamBaseline(); return paramBaselineCache }
+func baselineHasFunc(key string) bool { loadParamBaseline(); return paramBaselineFuncs[key] }
+
+func writeParamBaseline(P *Program, out string) error {
+	var lines []string
+	for k, fn := range P.Funcs {
+		if fn == nil || fn.Blocks == nil || fn.Parent() != nil {
+			continue
+		}
+		lines = append(lines, k+"\t*")
+		for i, p := range fn.Params {
+			if p.Name() == "_" || p.Name() == "" || isContextType(p.Type()) {
+				continue
+			}
+			if paramUnused(p) {
+				lines = append(lines, fmt.Sprintf("%s\t%d", k, i))
+			}
+		}
+	}
+	sort.Strings(lines)
+	hdr := "# per function of the confirmed tree: `<function>\\t*` (the function is known) and `<function>\\t<i>` for each parameter\n# (by position, receiver first) that is unused there; rule E9 reports a parameter that was used and no longer is\n"
+	return os.WriteFile(out, []byte(hdr+strings.Join(lines, "\n")+"\n"), 0o644)
 }
